@@ -60,8 +60,8 @@ LEVELS = {
         "note": TB + "PARTIAL: the frontier/substitution lemma (walk output rebuilds both root hashes) is not yet a theorem; decided by correspondence + oracle.",
     },
     "C09": {
-        "text": "Proof (Coq) over the auditor model: every accepted single-epoch proof has pairwise prefix-free node labels (no shadowing, duplicated or overlapping node set is accepted - the check added by the fix), inconsistent hash/epoch/proof lists are rejected, and the whole list of root hashes is determined by the proof (replacing any hash makes verification fail). The auditor (rebuild in auditor mode, both comparisons, the prefix-free check) is tied to the code on adversarial proofs with freely chosen end hashes; the defect that let a server drop committed leaves was found by this check and repaired.",
-        "note": TB + "PARTIAL: the semantic step (prefix-free + rebuild = canonical trie => every earlier commitment survives) is not yet a theorem; it is decided per run by the ground-truth oracle on the implementation and the rebuild correspondence.",
+        "text": "Machine-checked theorem for ALL single-epoch and multi-epoch audit proofs (arbitrary node lists, not only those an honest server emits): if the auditor accepts a proof against the root hashes of well-formed trees, every leaf of the earlier tree - label, value and epoch - is a leaf of the later tree, and the later tree holds nothing else than the proof's inserted nodes stamped with the end epoch; over a range of epochs whatever the first root hash commits to every later one does - or a hash collision (experimental configuration: or a zero-digest preimage) has been exhibited. Proved through a refinement of the auditor's rebuild (fresh tree, one batch insertion over prefix-free labels of mixed lengths = the trie whose leaves are exactly the given nodes) and a structural reading of hash equality. Also proved: accepted proofs are prefix-free (the check added by the fix), inconsistent lists are rejected, the hash list is determined by the proof. The auditor is tied to the code on adversarial proofs with freely chosen end hashes; the defect that let a server drop committed leaves was found by this check and repaired.",
+        "note": TB + "Premises: the hashes are root hashes of well-formed trees (C01); proof labels canonical (stray bits beyond the length are exercised by the harness only). Hash assumptions only as the disjunct Bad.",
     },
     "C06": {
         "text": "Machine-checked theorem for ALL lookup proofs (arbitrary bytes in every field): against the root hash of a well-formed tree that holds, at the queried label's VRF labels, exactly the prescribed fresh leaves and the stale leaves of all superseded versions, lookup verification accepts only (latest version, its value, its epoch) - or exhibits a hash collision (experimental configuration: or a zero-digest preimage). The Binding premise is proved for both real configurations; VRF uniqueness is an explicit premise. The verifier model is tied to the code on 400+ adversarial proofs per run assembled with the real key and tree, each VRF check evaluated by the real primitive.",
